@@ -143,6 +143,8 @@ type env struct {
 	snapCacheOK bool
 	// failStates: the model states one response passes through (see processResults)
 	failStates []*Model
+	// onResult, when set, runs after every single result has been folded into the model
+	onResult func()
 }
 
 func (e *env) probe(name string) { e.sim.Probe(name) }
@@ -364,7 +366,12 @@ func (e *env) processResults(s *session, rs []*spb.ModifyResponse) {
 			}
 			s.opResp++
 		}
-		e.failStates = []*Model{e.model.Clone()}
+		// (a server that does not answer operation by operation - responses merged or split, see alignLost - may
+		// deliver the FAILED of a cascade in a later message than its successes: there the states of the earlier
+		// messages of this batch stay admissible; on a server that does, each response is judged on its own)
+		if e.failStates == nil || !s.alignLost || len(e.failStates) > 256 {
+			e.failStates = []*Model{e.model.Clone()}
+		}
 		var fails []*spb.AFTResult
 		for _, res := range r.GetResult() {
 			if res.GetStatus() == spb.AFTResult_FAILED {
@@ -375,12 +382,21 @@ func (e *env) processResults(s *session, rs []*spb.ModifyResponse) {
 			if res.GetStatus() == spb.AFTResult_RIB_PROGRAMMED {
 				e.failStates = append(e.failStates, e.model.Clone())
 			}
+			if e.onResult != nil {
+				e.onResult()
+			}
 		}
 		for _, res := range fails {
 			e.oneResult(s, res)
+			if e.onResult != nil {
+				e.onResult()
+			}
 		}
-		e.failStates = nil
+		if !s.alignLost {
+			e.failStates = nil
+		}
 	}
+	e.failStates = nil
 }
 
 func (e *env) oneResult(s *session, res *spb.AFTResult) {
